@@ -417,7 +417,7 @@ pub fn run(ctx: &Ctx) -> (Report, PropertyMeta) {
     report.merge(r);
 
     // random shapes
-    let n = t.pick(1500, 60_000);
+    let n = t.pick(20_000, 400_000);
     let r = run_random(
         ctx,
         "envelope",
